@@ -526,6 +526,12 @@ def run_probes(chk, probes, workers=None, chunk=24):
             chk.add(r["key"], st, r["detail"], r["secs"], replay=rp, family=r["family"])
             nq += r["nq"]
     chk.extra["solver_queries"] = chk.extra.get("solver_queries", 0) + nq
+    paths = sum(r.get("paths", 0) for rs in allres for r in rs)
+    insns = sum(r.get("insns", 0) for rs in allres for r in rs)
+    chk.extra["paths_explored"] = chk.extra.get("paths_explored", 0) + paths
+    chk.extra["asm_instructions_executed_symbolically"] = chk.extra.get("asm_instructions_executed_symbolically", 0) + insns
+    chk.extra["states"] = max(1, chk.extra["paths_explored"])
+    chk.extra["transitions"] = max(1, chk.extra["asm_instructions_executed_symbolically"])
     return allres
 
 
